@@ -24,7 +24,7 @@ SPEC = os.path.join(VERIF, "spec")
 G = 1024
 IOTRACE = os.path.join(VERIF, "harness", "iotrace.so")
 JOBS = max(2, min(6, NPROC // 3))
-DEVS = dict(DevByteOffTwice="FALSE", DevAbsTiling="FALSE", DevChanUnits="FALSE", DevReopenFull="FALSE")
+DEVS = dict(DevByteOffTwice="FALSE", DevAbsTiling="FALSE", DevChanUnits="FALSE", DevReopenFull="FALSE", DevExtendShort="FALSE")
 
 # ---------------------------------------------------------------------------------------------- crc32c (own)
 _crc_c = None
@@ -587,7 +587,9 @@ def tool_scenarios(tier, rng):
     add("debugfs_edit_ext2_2k", "ext2_2k", [dbg("mkdir nd", "write {src} nd/new", "rm f2", "rmdir d1/d2", "ssv mnt_count 7")])
     add("debugfs_edit_ext4_4k", "ext4_4k", [dbg("write {src} big", "rm d1/f1", "set_bg 0 checksum calc", "dirty")])
     add("debugfs_edit_off", "ext4_1k_off", [dbg("mkdir nd", "write {src} nd/new", "rm f2")], core=True)
-    add("debugfs_zap63", "ext4_1k", [dbg(*["zap_block -p 0x55 %d" % (3001 + 2 * i) for i in range(63)]), tu("-O", "^has_journal")], core=True)
+    # first run leaves exactly one full key block (63 keys of 16 bytes in a 1 KiB block), the second run appends
+    add("debugfs_zap63", "ext4_1k", [dbg(*["zap_block -p 0x55 %d" % (3001 + 2 * i) for i in range(63)]), tu("-O", "^has_journal")], core=True,
+        full_keyblock=True)
     # --- chains into one undo file
     add("chain_tune_resize", "ext4_1k", [tu("-O", "^has_journal"), S("resize2fs", "-z", "{undo}", "{dev}", "8192")], core=True)
     add("chain_mke2fs_debugfs_fsck", "raw", [mk("-t", "ext4", "-b", "1024", "{dev}"), dbg("mkdir a", "write {src} a/x"), S("e2fsck", "-fyD", "-z", "{undo}", "{dev}", okrc=(0, 1))], core=True)
@@ -772,6 +774,25 @@ def run_scenario(b, work, sc, idx):
     problems = []
     info = dict(name=sc["name"], steps=[])
     nsteps = len(sc["steps"])
+    if sc.get("full_keyblock"):
+        # calibrate the number of scattered single-block writes of step 0 so that it ends with exactly 63 keys
+        sc = dict(sc, steps=[dict(st, args=list(st["args"])) for st in sc["steps"]])
+        tmpd = os.path.join(sdir, "calib"); os.makedirs(tmpd, exist_ok=True)
+        cdev = os.path.join(tmpd, DEVNAME); cun = os.path.join(tmpd, UNDONAME)
+        shutil.copyfile(dev, cdev)
+        st0 = sc["steps"][0]
+        argv = step_argv(b, st0, cdev, cun, off)
+        for i, a in enumerate(argv):
+            if a.startswith("@"):
+                sp = os.path.join(tmpd, "c.cmd"); open(sp, "w").write(a[1:] + "\n"); argv[i] = sp
+        crun(argv, env=tenv(b), timeout=120)
+        if os.path.exists(cun):
+            nk = UndoFile(open(cun, "rb").read())
+            extra = getattr(nk, "nkeys", 63) - 63
+            if 0 < extra < 20:
+                for i, a in enumerate(st0["args"]):
+                    if a.startswith("@"):
+                        st0["args"][i] = "@" + "\n".join(a[1:].split("\n")[:-extra])
     recorded = 0
     for si, st in enumerate(sc["steps"]):
         argv = step_argv(b, st, dev, undo, off if st["tool"] != "mke2fs" and st["tool"] != "resize2fs" else 0)
@@ -799,7 +820,10 @@ def run_scenario(b, work, sc, idx):
             return dict(skip="step %d (%s) exit %d: %s" % (si, os.path.basename(argv[0]), rc, (e.decode("utf8", "replace") or o.decode("utf8", "replace"))[-200:]), info=info)
         recorded += 1
     if not os.path.exists(undo):
-        return dict(skip="no undo file was written", info=info)
+        if open(dev, "rb").read() != dev0:
+            problems.append(("tool:norecord", "%s changed the device although -z was given, and wrote no undo file" % sc["name"]))
+            return dict(lines=[json.dumps({"e": "Reset", "a": 0, "b": 0, "m": 0})], problems=problems, info=info)
+        return dict(skip="no undo file was written and the device is unchanged", info=info)
     events = read_iotrace(os.path.join(sdir, "run.iot"))
     blob = open(os.path.join(sdir, "run.blob"), "rb").read() if os.path.exists(os.path.join(sdir, "run.blob")) else b""
     uf = UndoFile(open(undo, "rb").read())
@@ -966,38 +990,30 @@ def sweep_targets(uf, tier, rng):
     return out
 
 
-def sweep_worker(b, work, wi, undo_raw, dev_path, targets):
+def sweep_worker(b, drv, work, wi, undo_raw, dev_path, targets):
+    """runs harness/undodrv's sweep command (flip, e2undo under iotrace, flip back) over its share of the targets"""
     d = os.path.join(work, "sw%d" % wi); os.makedirs(d, exist_ok=True)
     dev = os.path.join(d, DEVNAME); undo = os.path.join(d, UNDONAME)
     shutil.copyfile(dev_path, dev)
-    raw = bytearray(undo_raw)
-    open(undo, "wb").write(raw)
+    open(undo, "wb").write(undo_raw)
     h0 = hashlib.sha256(open(dev, "rb").read()).hexdigest()
-    e2 = os.path.join(b, tool(b, "e2undo"))
-    env = trace_env(b, d, "sw")
-    iot = env["VERIF_IOTRACE_OUT"]
-    env.pop("VERIF_IOTRACE_BLOBS")
-    res = []
-    with open(undo, "r+b") as f:
+    tf = os.path.join(d, "targets.txt")
+    with open(tf, "w") as f:
         for (by, bit, kind, mode) in targets:
-            f.seek(by); f.write(bytes([raw[by] ^ (1 << bit)])); f.flush()
-            if os.path.exists(iot):
-                os.unlink(iot)
-            rc, o, e = crun([e2] + (["-n"] if mode else []) + [undo, dev], env=env, timeout=120)
-            nw = count_dev_writes(read_iotrace(iot))
-            res.append((by, bit, kind, mode, rc, nw))
-            f.seek(by); f.write(bytes([raw[by]])); f.flush()
-            if nw or rc == 0:
-                # should not happen: make sure later runs start from the same device
-                same = hashlib.sha256(open(dev, "rb").read()).hexdigest() == h0
-                res[-1] = res[-1] + (same,)
-                if not same:
-                    shutil.copyfile(dev_path, dev)
-    same_end = hashlib.sha256(open(dev, "rb").read()).hexdigest() == h0
+            f.write("%d %d %d\n" % (by, bit, mode))
+    env = tool_env(b, {"E2UNDO": os.path.join(b, "misc", "e2undo"), "IOTRACE_SO": IOTRACE, "E2FSPROGS_UNDO_DIR": "none"})
+    p = subprocess.run([drv], input=("sweep %s %s %s\n" % (dev, undo, tf)).encode(), stdout=subprocess.PIPE, stderr=subprocess.PIPE, env=env, timeout=3000)
+    if p.returncode != 0:
+        die_broken("sweep driver failed: " + p.stderr.decode()[-300:])
+    rows = [tuple(int(x) for x in ln.split()) for ln in p.stdout.decode().splitlines() if ln.strip()]
+    if len(rows) != len(targets):
+        die_broken("instrumentation incomplete: sweep logged %d of %d runs" % (len(rows), len(targets)))
+    same_end = hashlib.sha256(open(dev, "rb").read()).hexdigest() == h0 and open(undo, "rb").read() == undo_raw
+    res = [(by, bit, kind, mode, rc, nw, bool(same) and same_end) for (by, bit, kind, mode), (_b, _bi, _m, rc, nw, same) in zip(targets, rows)]
     return res, same_end
 
 
-def damage_sweep(ev, vd, tier, work, b, rng):
+def damage_sweep(ev, vd, tier, work, b, drv, rng):
     # two undo files made by real tools: tune2fs on a 1 KiB-block filesystem (undo blocks of 1 KiB), mke2fs (32 KiB)
     files = []
     for name, base, st in (("tune2fs", "ext4_1k", S("tune2fs", "-z", "{undo}", "-O", "^has_journal", "{devq}")),
@@ -1027,7 +1043,7 @@ def damage_sweep(ev, vd, tier, work, b, rng):
         shards = [full[i::JOBS] for i in range(JOBS)]
         raw = open(undo, "rb").read()
         with cf.ThreadPoolExecutor(max_workers=JOBS) as ex:
-            outs = list(ex.map(lambda t: sweep_worker(b, work, fi * 100 + t[0], raw, dev, t[1]), enumerate(shards)))
+            outs = list(ex.map(lambda t: sweep_worker(b, drv, work, fi * 100 + t[0], raw, dev, t[1]), enumerate(shards)))
         for res, same_end in outs:
             for r in res:
                 by, bit, kind, mode, rc, nw = r[:6]
@@ -1111,7 +1127,7 @@ def run(tier):
         t2 = time.time()
         tool_conformance(ev, vd, tier, work, b, rng)
         t3 = time.time()
-        damage_sweep(ev, vd, tier, work, b, rng)
+        damage_sweep(ev, vd, tier, work, b, drv, rng)
         t4 = time.time()
         ev.cov["wall_parts_s"] = dict(model=round(t1 - t0, 1), api=round(t2 - t1, 1), tools=round(t3 - t2, 1), sweep=round(t4 - t3, 1))
         ev.cov["rule"] = ("evaluations = API histories + recorded tool scenarios + e2undo runs on damaged undo files; non-trivial = API history with a "
